@@ -121,6 +121,11 @@ class GotranPythonCodePrinter(PythonCodePrinter):
     #         f=self._module_format("numpy.copysign"), e=self._print(e.args[0])
     #     )
 
+    def _print_Not(self, expr):
+        # Python's ``not`` needs a single truth value (and binds weaker than the
+        # arithmetic around it); use the elementwise ufunc like for And and Or
+        return f"numpy.logical_not({self._print(expr.args[0])})"
+
     def _print_Equality(self, expr):
         lhs, rhs = expr.args
         return f"({self._print(lhs)} == {self._print(rhs)})"
